@@ -14,13 +14,16 @@ import traceback
 from vlib import bootstrap
 
 # scalar summaries first: Hypothesis favours small indices, and these are the getters whose stale values are cheapest to expose
-GETTERS = ["get_is_chiral", "get_space_group_number", "get_material_id", "get_conventional_system", "get_primitive_system",
-           "get_wyckoff_letters_original", "get_wyckoff_letters_primitive", "get_wyckoff_letters_conventional", "get_equivalent_atoms_original",
-           "get_equivalent_atoms_primitive", "get_equivalent_atoms_conventional", "get_wyckoff_sets_conventional"]
+GETTERS = ["get_is_chiral", "get_wyckoff_letters_original", "get_wyckoff_sets_conventional:params", "get_space_group_number", "get_material_id",
+           "get_conventional_system", "get_primitive_system", "get_wyckoff_letters_primitive", "get_wyckoff_letters_conventional",
+           "get_equivalent_atoms_original", "get_equivalent_atoms_primitive", "get_equivalent_atoms_conventional", "get_wyckoff_sets_conventional",
+           "get_has_free_wyckoff_parameters"]
 LAST = {"log": None, "msg": None}
 
 
 def _fetch(an, name):
+    if name == "get_wyckoff_sets_conventional:params":
+        return an.get_wyckoff_sets_conventional(True)
     f = getattr(an, name)
     return f(False) if name == "get_wyckoff_sets_conventional" else f()
 
@@ -31,7 +34,10 @@ def _norm(name, v):
         return (np.round(np.asarray(v.get_cell()), 8).tolist(), np.round(v.get_positions(), 8).tolist(), v.get_atomic_numbers().tolist())
     if name == "get_wyckoff_sets_conventional":
         return sorted((s.wyckoff_letter, s.element, tuple(int(i) for i in s.indices)) for s in v)
-    if name in ("get_space_group_number", "get_is_chiral", "get_material_id"):
+    if name == "get_wyckoff_sets_conventional:params":
+        r = lambda x: None if x is None else round(float(x), 6)
+        return sorted((s.wyckoff_letter, s.element, tuple(int(i) for i in s.indices), r(s.x), r(s.y), r(s.z)) for s in v)
+    if name in ("get_space_group_number", "get_is_chiral", "get_material_id", "get_has_free_wyckoff_parameters"):
         return v if not hasattr(v, "item") else v.item()
     return [str(x) for x in np.asarray(v).tolist()]
 
@@ -58,9 +64,15 @@ def execute(log, raise_on_fail=True):
         return None
     refs = {}
 
+    def safe(an_, name):
+        try:
+            return _norm(name, _fetch(an_, name))
+        except Exception as e:      # an exception is an answer too: the history must then raise the same one
+            return "raises %s" % type(e).__name__
+
     def ref(k, name):
         if (k, name) not in refs:
-            refs[(k, name)] = _norm(name, _fetch(SymmetryAnalyzer(pool[k], symmetry_tol=1e-3), name))
+            refs[(k, name)] = safe(SymmetryAnalyzer(pool[k], symmetry_tol=1e-3), name)
         return refs[(k, name)]
     cur = 0
     live = pool[0].copy()
@@ -69,7 +81,7 @@ def execute(log, raise_on_fail=True):
         op = step[0]
         if op == "get":
             name = GETTERS[step[1] % len(GETTERS)]
-            got = _norm(name, _fetch(an, name))
+            got = safe(an, name)
             if got != ref(cur, name):
                 return "after history %s: %s differs from what a fresh analyser returns for the crystal currently held (#%d)" % (log["steps"], name, cur)
         elif op == "set":
@@ -166,5 +178,5 @@ def campaign(pid, seed, n_examples_per_worker, workers=16):
                 json.dump({"property": pid, "clause": "history-independent", "statemachine": r["fail"]["log"], "observed": r["fail"]["msg"]}, f, indent=1)
             failures.append({"key": "statemachine:history-independent", "clause": "history-independent", "msg": r["fail"]["msg"], "path": path})
     cov = {"statemachine_runs": n_examples_per_worker * workers, "statemachine_getter_checks": sum(r["getter_checks"] for r in res),
-           "statemachine_rules": ["getter(12 getters)", "set_system(new object)", "set_system(same object modified in place)", "reset"]}
+           "statemachine_rules": ["getter(14 getters incl. Wyckoff sets with and without parameters)", "set_system(new object)", "set_system(same object modified in place)", "reset"]}
     return failures, cov
